@@ -19,6 +19,7 @@ import (
 type c16El struct {
 	id      int
 	once    bool
+	cond    bool   // the element also carries a (true) v-if: another branch of the evaluator
 	loop    int    // >0: v-for over a list of that many items
 	include string // non-empty: <template include=...> instead of an element (kids = supplied slot content)
 	slot    bool   // <slot></slot>
@@ -48,7 +49,7 @@ func (g *c16Gen) tree(depth int, comps []string) []*c16El {
 			continue
 		}
 		g.next++
-		e := &c16El{id: g.next, once: g.r.Intn(3) == 0}
+		e := &c16El{id: g.next, once: g.r.Intn(3) == 0, cond: g.r.Intn(4) == 0}
 		if g.r.Intn(4) == 0 {
 			e.loop = 2 + g.r.Intn(2)
 		}
@@ -59,6 +60,7 @@ func (g *c16Gen) tree(depth int, comps []string) []*c16El {
 	}
 	return out
 }
+
 // a conditional include of a missing file at the very end of the page: with boom set the render fails
 // after every v-once element of the page has been reached
 const c16Trailer = `<template v-if="boom"><template include="missing.vuego"></template></template>`
@@ -90,6 +92,9 @@ func c16SrcInner(file string, es []*c16El, real bool) string {
 		}
 		if e.loop > 0 {
 			attrs += fmt.Sprintf(` v-for="q in l%d"`, e.loop)
+		}
+		if e.cond {
+			attrs += ` v-if="link"`
 		}
 		fmt.Fprintf(&sb, "<div%s>%s</div>", attrs, c16SrcInner(file, e.kids, real))
 	}
